@@ -22,7 +22,7 @@ BASE = {
     "w": {"int": 5, "data": 5, "bits": 2, "ref": 3, "refsel": 2, "seq": 4, "opt": 3, "em": 1},
     "move": 0.15, "begins": True, "rawcb": False, "regex_multi_unkept": False, "regex_unkept": True,
     "sbl": True, "eos": True, "defaults": False, "align_opt": True, "bad_expr": 0.05, "regex": True,
-    "endian_opt": True, "seq_aligned": True, "flat": False,
+    "endian_opt": True, "seq_aligned": True, "flat": False, "relpos": True,
 }
 
 
@@ -164,6 +164,12 @@ class PktGen:
             f["size"] = ["const", d(st.integers(0, 5))]
         elif m == "field":
             f["size"] = ["field", self.control()]
+            if self.prof.get("describe") and name is None and chance(d, 0.5):
+                ctl = [g for g in self.fields if g["name"] == f["size"][1]][0]
+                if ctl["k"] == "int" and "describe" not in ctl and not ctl.get("signed"):
+                    f["name"] = self.fresh()
+                    name = f["name"]
+                    ctl["describe"] = ["autolength", f["name"]]
         elif m == "expr":
             f["size"] = self.spec_of(self.num_expr(), allow_field=False)
             if f["size"][1][0] == "f":
@@ -181,6 +187,9 @@ class PktGen:
         if name is None:
             f["name"] = self.fresh()
         return f
+
+    def gen_ref_placeholder(self):
+        pass
 
     def gen_ref(self, name=None):
         d = self.draw
@@ -267,6 +276,8 @@ class PktGen:
                     u = ["bin", "ge", ["un", "len", me], ["c", d(st.integers(1, 3))]]
             if self.prof["rawcb"] and chance(d, 0.25):
                 u = ["bin", "le", ["rawrem"], ["c", d(st.integers(0, 2))]]
+            elif self.prof["relpos"] and chance(d, 0.2):
+                u = ["bin", "ge", ["relpos"], ["c", d(st.integers(1, 12))]]
             f["until"] = ["call", u]
         if chance(d, 0.3):
             f["when"] = self.spec_of(self.cond_expr())
@@ -304,6 +315,63 @@ class PktGen:
         else:
             arg = ["call", ["bin", "add", ["f", self.control()], ["c", base]]]
         return {"kind": "at", "arg": arg, "ref": ref}
+
+    def simple_value(self, f):
+        """a declared-type value for a default (no cross-field consistency needed: defaults are what they are)"""
+        d = self.draw
+        k = f["k"]
+        if k == "int":
+            lo, hi = int_range(f)
+            if f.get("ctl"):
+                return d(st.integers(0, 5))
+            return d(st.one_of(st.sampled_from([lo, hi, 1]), st.integers(lo, hi)))
+        if k == "bits":
+            if f.get("ctl"):
+                return d(st.integers(0, min(5, (1 << f["w"]) - 1)))
+            return d(st.integers(0, (1 << f["w"]) - 1))
+        if k == "data":
+            if f["size"][0] == "const":
+                n = f["size"][1]
+                return d(st.binary(min_size=n, max_size=n))
+            return d(st.binary(max_size=4).map(lambda b: b.replace(b"\r", b"q").replace(b"\n", b"q").replace(b"\x00", b"z")))
+        if k == "ref":
+            return dict({"__cls__": f["to"]}, **self.pkt_kwargs(f["to"]))
+        if k == "refsel":
+            o = d(st.sampled_from(f["options"]))[1]
+            if o[0] == "pkt":
+                return dict({"__cls__": o[1]}, **self.pkt_kwargs(o[1]))
+            return self.simple_value(o[1])
+        raise ValueError(k)
+
+    def pkt_kwargs(self, to):
+        d = self.draw
+        sub = ir.pkt_by_name({"pkts": self.earlier}, to)
+        kw = {}
+        for g in sub["fields"]:
+            if g["k"] in ("int", "bits", "data") and chance(d, 0.4):
+                v = self.simple_value(g)
+                if v not in (b"", None):
+                    kw[g["name"]] = v
+        return kw
+
+    def add_default(self, f):
+        d = self.draw
+        k = f["k"]
+        if k in ("int", "bits"):
+            f["default"] = self.simple_value(f)
+        elif k == "data":
+            v = self.simple_value(f)
+            if v:
+                f["default"] = v
+        elif k == "ref":
+            f["kwargs"] = self.pkt_kwargs(f["to"])
+        elif k == "refsel":
+            v = self.simple_value(f)
+            f["default"] = ["pkt", v["__cls__"], {a: b for a, b in v.items() if a != "__cls__"}] if isinstance(v, dict) else ["val", v]
+        elif k == "seq":
+            f["default"] = [self.simple_value(f["elem"]) for _ in range(d(st.integers(0, 3)))]
+        elif k == "opt":
+            f["default"] = self.simple_value(f["elem"])
 
     def build(self):
         d, prof = self.draw, self.prof
@@ -354,6 +422,10 @@ class PktGen:
                 f["move"] = {"kind": "aligned", "arg": ["const", d(st.sampled_from([2, 4, 8]))],
                              "ref": d(st.sampled_from(["innermost-pkt"] + (["begins"] if prof["begins"] else [])))}
             self.fields.append(f)
+        if prof["defaults"]:
+            for f in self.fields:
+                if chance(d, 0.6):
+                    self.add_default(f)
         if prof["eos"] and self.is_root and chance(d, 0.08) and not use_align:
             self.fields.append({"k": "data", "name": self.fresh(), "size": ["regex", b"$"], "incl": False})
         # controls are declared before their users, but appended when first needed: move every control field in front
